@@ -321,11 +321,11 @@ def ref_dechunk(data):
         k = 0
         while k < len(ln) and chr(ln[k]) in "0123456789abcdefABCDEF":
             k += 1
-        if k == 0 or k > 15:
+        if k == 0:
             return ("bad", body)
         rest = ln[k:-2].lstrip(b" \t")
-        if rest and not rest.startswith(b";"):
-            return ("bad", body)
+        if k > 15 or (rest and not rest.startswith(b";")):
+            return ("lenient", body)          # not RFC syntax, but not clearly broken framing either
         size = int(ln[:k], 16)
         i = j + 1
         if size == 0:
@@ -470,6 +470,8 @@ def ref_backend(data, be):
             d = ref_dechunk(after)
             r["framing"] = "chunked"
             r["body"] = d[1]
+            if d[0] == "lenient":
+                return dict(kind="lenient", why="chunk-size line syntax")
             r["complete"] = d[0] == "ok"
             r["badframing"] = d[0] == "bad"
             if d[0] == "ok":
@@ -542,7 +544,7 @@ def client_h1(wire, head_req):
         if len(te) != 1 or te[0].lower() != b"chunked" or cl or sl[5:8] != b"1.1":
             return dict(ok=False, why="contradictory framing fields (Transfer-Encoding / Content-Length / version)")
         d = ref_dechunk(after)
-        if d[0] == "bad":
+        if d[0] in ("bad", "lenient"):
             return dict(ok=False, why="chunked framing invalid", chunksyntax=True)
         r.update(framing="chunked", body=d[1], complete=d[0] == "ok")
         if d[0] == "ok":
@@ -783,6 +785,8 @@ def oracle_dechunk(t, out):
     if b"\x00" in data:
         return None
     ref = ref_dechunk(data)
+    if ref[0] == "lenient":
+        return None
     o = dict(x.split("=", 1) for x in out.split(" ")[1:] if "=" in x)
     if out.startswith("err"):
         if ref[0] == "ok" and len(data) == ref[3]:
@@ -1004,7 +1008,8 @@ def run(ctx):
     ctx.dist["relay:random"] = len(rl)
     ctx.dist["relay:exhaustive-splits-and-cuts"] = len(ex)
     ctx.dist["relay:large-bodies"] = len(big)
-    for name, lines in (("relay(h_beresp)", rl + ex + big), ("backend-dechunk(h_beresp)", gen_dechunk(ctx)),
+    # (short exhaustive cases first: the runner keeps the first failing input of each kind as replay)
+    for name, lines in (("relay(h_beresp)", sorted(ex, key=len) + rl + big), ("backend-dechunk(h_beresp)", gen_dechunk(ctx)),
                         ("fastcgi-records(h_beresp)", gen_fcgi(ctx))):
         nd = ctx.differential(name, [exe], "beresp", lines, oracle, classify)
         if nd and ctx.model_ok:
